@@ -133,6 +133,78 @@ func outcomeText(o cli.Outcome) string {
 	return s
 }
 
+// hooksAgainstTransport compares the recorded hook calls of one request call with what the transport saw.
+func hooksAgainstTransport(c hookCase, o cli.Outcome) (parserEntered bool, res harness.Result) {
+	var hw, hr, hp []cli.HookCall
+	for _, h := range o.Hooks {
+		switch h.Kind {
+		case "write":
+			hw = append(hw, h)
+		case "read":
+			hr = append(hr, h)
+		case "parse":
+			hp = append(hp, h)
+		}
+	}
+	// before-write
+	if len(hw) != 1 {
+		return false, harness.Fail("BeforeWrite called %d times", len(hw))
+	}
+	if len(o.Writes) != 1 || !bytes.Equal(hw[0].Data, o.ReqBytes) || !bytes.Equal(o.Writes[0], o.ReqBytes) {
+		return false, harness.Fail("BeforeWrite got %x, request encodes to %x, transport received %x", hw[0].Data, o.ReqBytes, o.Writes)
+	}
+	if hw[0].Seq > o.WriteSeqs[0] {
+		return false, harness.Fail("BeforeWrite was called after the transport write")
+	}
+	// after-each-read
+	if len(hr) != len(o.Reads) {
+		return false, harness.Fail("AfterEachRead called %d times for %d transport reads", len(hr), len(o.Reads))
+	}
+	var all []byte
+	for i, r := range o.Reads {
+		h := hr[i]
+		if !bytes.Equal(h.Data, r.Data) || h.N != r.N || h.Err != r.Err {
+			return false, harness.Fail("read #%d returned (%x, n=%d, err=%v) but AfterEachRead got (%x, n=%d, err=%v); bytes read before it: %x", i, r.Data, r.N, r.Err, h.Data, h.N, h.Err, all)
+		}
+		if h.Seq < r.Seq || (i+1 < len(o.Reads) && h.Seq > o.Reads[i+1].Seq) {
+			return false, harness.Fail("AfterEachRead #%d not invoked between transport read #%d and the next one", i, i)
+		}
+		all = append(all, r.Data...)
+	}
+	// before-parse
+	parserEntered = false
+	if c.CustomParse {
+		parserEntered = len(o.ParserCalls) > 0
+		if len(o.ParserCalls) > 1 {
+			return false, harness.Fail("parser called %d times", len(o.ParserCalls))
+		}
+	} else {
+		// outcome based: a response means the parser ran
+		parserEntered = !cat.IsNilValue(o.Resp)
+	}
+	if len(hp) > 1 {
+		return false, harness.Fail("BeforeParse called %d times", len(hp))
+	}
+	if parserEntered {
+		if len(hp) != 1 {
+			return false, harness.Fail("the reply was handed to the parser but BeforeParse was called %d times", len(hp))
+		}
+		if c.CustomParse {
+			pc := o.ParserCalls[0]
+			if hp[0].Seq != pc.Seq-1 {
+				return false, harness.Fail("BeforeParse (event %d) was not invoked immediately before the parser (event %d)", hp[0].Seq, pc.Seq)
+			}
+			if !bytes.Equal(pc.Data, all) {
+				return false, harness.Fail("parser received %x, bytes read were %x", pc.Data, all)
+			}
+		}
+	}
+	if len(hp) == 1 && !bytes.Equal(hp[0].Data, all) {
+		return false, harness.Fail("BeforeParse got %x, the concatenation of the bytes read is %x", hp[0].Data, all)
+	}
+	return parserEntered, harness.Result{}
+}
+
 func runHook(c hookCase) harness.Result {
 	sc, reply, err := scenario(c)
 	if err != nil {
@@ -180,72 +252,9 @@ func runHook(c hookCase) harness.Result {
 	if len(plain.Reads) != len(o.Reads) || len(plain.Writes) != len(o.Writes) {
 		return harness.Fail("installing hooks changed the transport traffic: %d/%d reads, %d/%d writes", len(plain.Reads), len(o.Reads), len(plain.Writes), len(o.Writes))
 	}
-	var hw, hr, hp []cli.HookCall
-	for _, h := range o.Hooks {
-		switch h.Kind {
-		case "write":
-			hw = append(hw, h)
-		case "read":
-			hr = append(hr, h)
-		case "parse":
-			hp = append(hp, h)
-		}
-	}
-	// before-write
-	if len(hw) != 1 {
-		return harness.Fail("BeforeWrite called %d times", len(hw))
-	}
-	if len(o.Writes) != 1 || !bytes.Equal(hw[0].Data, o.ReqBytes) || !bytes.Equal(o.Writes[0], o.ReqBytes) {
-		return harness.Fail("BeforeWrite got %x, request encodes to %x, transport received %x", hw[0].Data, o.ReqBytes, o.Writes)
-	}
-	if hw[0].Seq > o.WriteSeqs[0] {
-		return harness.Fail("BeforeWrite was called after the transport write")
-	}
-	// after-each-read
-	if len(hr) != len(o.Reads) {
-		return harness.Fail("AfterEachRead called %d times for %d transport reads", len(hr), len(o.Reads))
-	}
-	var all []byte
-	for i, r := range o.Reads {
-		h := hr[i]
-		if !bytes.Equal(h.Data, r.Data) || h.N != r.N || h.Err != r.Err {
-			return harness.Fail("read #%d returned (%x, n=%d, err=%v) but AfterEachRead got (%x, n=%d, err=%v); bytes read before it: %x", i, r.Data, r.N, r.Err, h.Data, h.N, h.Err, all)
-		}
-		if h.Seq < r.Seq || (i+1 < len(o.Reads) && h.Seq > o.Reads[i+1].Seq) {
-			return harness.Fail("AfterEachRead #%d not invoked between transport read #%d and the next one", i, i)
-		}
-		all = append(all, r.Data...)
-	}
-	// before-parse
-	parserEntered := false
-	if c.CustomParse {
-		parserEntered = len(o.ParserCalls) > 0
-		if len(o.ParserCalls) > 1 {
-			return harness.Fail("parser called %d times", len(o.ParserCalls))
-		}
-	} else {
-		// outcome based: a response means the parser ran
-		parserEntered = !cat.IsNilValue(o.Resp)
-	}
-	if len(hp) > 1 {
-		return harness.Fail("BeforeParse called %d times", len(hp))
-	}
-	if parserEntered {
-		if len(hp) != 1 {
-			return harness.Fail("the reply was handed to the parser but BeforeParse was called %d times", len(hp))
-		}
-		if c.CustomParse {
-			pc := o.ParserCalls[0]
-			if hp[0].Seq != pc.Seq-1 {
-				return harness.Fail("BeforeParse (event %d) was not invoked immediately before the parser (event %d)", hp[0].Seq, pc.Seq)
-			}
-			if !bytes.Equal(pc.Data, all) {
-				return harness.Fail("parser received %x, bytes read were %x", pc.Data, all)
-			}
-		}
-	}
-	if len(hp) == 1 && !bytes.Equal(hp[0].Data, all) {
-		return harness.Fail("BeforeParse got %x, the concatenation of the bytes read is %x", hp[0].Data, all)
+	parserEntered, hres := hooksAgainstTransport(c, o)
+	if hres.Err != nil {
+		return hres
 	}
 	if parserEntered {
 		labels = append(labels, "parser-entered")
@@ -412,10 +421,67 @@ var chkNetBatch = harness.Define("client-hooks-concurrent-clients",
 		return out
 	})
 
+// agedHookCase: the same on one hooked network client that has been in use for a long time: N calls on one Client value, call i uses
+// Cases[i % len(Cases)]; what the hooks see is compared with the transport in every call - the 1st like the 5958th.
+type agedHookCase struct {
+	Kind  string     `json:"kind"`
+	N     int        `json:"n"`
+	Cases []hookCase `json:"cases"`
+}
+
+func runAgedHook(c agedHookCase) harness.Result {
+	if len(c.Cases) == 0 {
+		return harness.Result{}
+	}
+	sess, err := cli.NewSession(c.Kind, 5000, true)
+	if err != nil {
+		return harness.Fail("harness: %v", err)
+	}
+	defer sess.Close()
+	preps := make([]cli.Scenario, len(c.Cases))
+	for i := range c.Cases {
+		c.Cases[i].Kind = c.Kind
+		sc, _, err := scenario(c.Cases[i])
+		if err != nil {
+			return harness.Fail("harness: %v", err)
+		}
+		preps[i] = sc
+	}
+	total := 0
+	for i := 0; i < c.N; i++ {
+		k := i % len(c.Cases)
+		o := sess.Call(c.Cases[k].Req, preps[k].Stream, preps[k].Events)
+		where := fmt.Sprintf("call #%d on one long-lived hooked %s client (%d reply bytes read so far)", i+1, c.Kind, total)
+		if o.Panic != nil || o.Hung {
+			return harness.Fail("%s: panic=%v hung=%v", where, o.Panic, o.Hung)
+		}
+		if _, r := hooksAgainstTransport(c.Cases[k], o); r.Err != nil {
+			return harness.Fail("%s: %v; this call: %+v", where, r.Err, c.Cases[k])
+		}
+		for _, r := range o.Reads {
+			total += r.N
+		}
+	}
+	return harness.Result{NonTrivial: c.N >= 300, Labels: []string{"kind:" + c.Kind, fmt.Sprintf("calls-on-one-client:%d", c.N)}, Weight: int64(c.N)}
+}
+
+var chkAgedHook = harness.Define("client-hooks-long-lived-client",
+	func(t *rapid.T) agedHookCase {
+		c := agedHookCase{Kind: rapid.SampledFrom([]string{cli.TCP, cli.RTUNet}).Draw(t, "kind"), N: rapid.SampledFrom([]int{300, 2600, 7000, 12000}).Draw(t, "n")}
+		k := rapid.IntRange(2, 16).Draw(t, "ncases")
+		for len(c.Cases) < k {
+			hc := genHook(t, []string{c.Kind})
+			hc.CustomParse, hc.Prior, hc.PriorShape, hc.Address, hc.CancelChunk, hc.CancelBlockMs, hc.ExplicitParser = false, "", "", "", 0, 0, false
+			c.Cases = append(c.Cases, hc)
+		}
+		return c
+	}, runAgedHook)
+
 func TestRandom(t *testing.T) {
 	chkHook.Rapid(t, harness.Pick(4000, 200000))
 	chkSerial.Rapid(t, harness.Pick(3, 60))
 	chkNetBatch.Rapid(t, harness.Pick(150, 4000))
+	chkAgedHook.Rapid(t, harness.Pick(6, 60))
 }
 
 // TestSingleCuts: every single cut of one reply per function x network client kind, with an empty read in between.
